@@ -1,6 +1,7 @@
 package props
 
 import (
+	"unicode/utf8"
 	"regexp"
 	"strconv"
 	"strings"
@@ -51,6 +52,37 @@ func positionsTruthful(dump string, inputs []string, knownStringCol bool) string
 		}
 		if want.Line != line || want.Col != col {
 			return "offset " + m[2] + " reported as line " + m[4] + " column " + m[5] + ", source says line " +
+				strconv.Itoa(want.Line) + " column " + strconv.Itoa(want.Col)
+		}
+	}
+	return ""
+}
+
+// lexPositionsTruthful: every token of a lex dump starts where the source's line/column table
+// says (valid UTF-8 inputs only: the table counts characters).
+func lexPositionsTruthful(dump, input string, knownStringCol bool) string {
+	if !utf8.ValidString(input) {
+		return ""
+	}
+	lcs := LineCols(input)
+	for _, t := range strings.Split(dump, ";") {
+		f := strings.Fields(t)
+		if len(f) != 6 {
+			continue // the final "ok" / "err l c"
+		}
+		kind, _ := strconv.Atoi(f[0])
+		start, _ := strconv.Atoi(f[2])
+		line, _ := strconv.Atoi(f[4])
+		col, _ := strconv.Atoi(f[5])
+		if start < 0 || start >= len(lcs) {
+			return "token offset " + f[2] + " outside the source"
+		}
+		want := lcs[start]
+		if knownStringCol && lexer.Type(kind) == lexer.String {
+			want.Col++
+		}
+		if want.Line != line || want.Col != col {
+			return "token at offset " + f[2] + " reported as line " + f[4] + " column " + f[5] + ", source says line " +
 				strconv.Itoa(want.Line) + " column " + strconv.Itoa(want.Col)
 		}
 	}
@@ -128,7 +160,40 @@ func runC04(c *core.Ctx) {
 		c.Seen(strings.Contains(k.in, "\n") || strings.Contains(k.in, "\r"), []byte(k.in))
 	})
 	_ = nerr
-	c.Evals += int64(len(cases)) * 2
+	// lexical family: block strings and line terminators. Every block-string body over
+	// {SP,TAB,LF,CR,a,"} followed by a token on the closing line and one on the next line, and
+	// random mixes of tokens, comments, Unicode and CR/LF/CRLF: token positions against the
+	// specification-side line/column table, and against the model.
+	maxBlock := 5
+	nLex := 20000
+	if !c.Quick {
+		maxBlock, nLex = 7, 400000
+	}
+	var lexInputs [][]byte
+	for n := 0; n <= maxBlock; n++ {
+		total := ipow(len(BlockAlphabet), n)
+		for i := 0; i < total; i++ {
+			body := nthString(BlockAlphabet, n, i)
+			lexInputs = append(lexInputs, append(append([]byte("a \"\"\""), body...), []byte("\"\"\" b\r\nc")...))
+		}
+	}
+	c.Count("block_string_bodies_exhaustive", int64(len(lexInputs)))
+	for i := 0; i < nLex; i++ {
+		lexInputs = append(lexInputs, RandomLexInput(c.Rng, 16))
+	}
+	c.Pool.ParFor(len(lexInputs), func(w, i int) {
+		in := lexInputs[i]
+		lx := c.Impl(w, "lex", in)
+		v, cur, none := c.Tie(w, "lex", lx, in)
+		if v == core.Violation {
+			c.Report(w, "lex", thm, [][]byte{in}, lx, cur, none)
+		}
+		if msg := lexPositionsTruthful(lx, string(in), fp1); msg != "" && !c.Explained(w, "lex", lx, in) {
+			c.ReportOracle("token-position-not-truthful", map[string]interface{}{"op": "lex", "args": hexArgs([][]byte{in}), "input": string(in), "problem": msg})
+		}
+	})
+	c.Count("lexical_inputs", int64(len(lexInputs)))
+	c.Evals += int64(len(cases))*2 + int64(len(lexInputs))
 	c.Programs = int64(len(cases))
 	c.Count("documents_with_random_layout", int64(len(cases)))
 	c.Sample(map[string]string{"document": cases[0].in})
